@@ -90,8 +90,34 @@ def body_funcs(ast):
     return [e.decl.name for e in ast.ext if isinstance(e, c_ast.FuncDef) and e.body is not None]
 
 
+HEAVY = ("build_choices", "fixpoint", "fusion", "simplify", "generate", "choice_reduce", "homogenisation")
+
+
+def crash_site(e):
+    """(innermost pymwp function, class of the AST node it was handling, first 'heavy' pymwp function on the stack)"""
+    import traceback
+    fn, node_cls, heavy = None, None, None
+    tb = e.__traceback__
+    while tb is not None:
+        fr = tb.tb_frame
+        if os.sep + "pymwp" + os.sep in fr.f_code.co_filename:
+            fn = os.path.basename(fr.f_code.co_filename) + ":" + fr.f_code.co_name
+            if heavy is None and fr.f_code.co_name in HEAVY:
+                heavy = fn
+            if "node" in fr.f_locals:
+                n = fr.f_locals["node"]
+                if isinstance(n, (list, tuple)):
+                    node_cls = "list-in-single-slot"
+                elif n is not None and type(n).__module__.startswith("pycparser"):
+                    node_cls = type(n).__name__
+        tb = tb.tb_next
+    if isinstance(e, AttributeError) and "'list' object has no attribute" in str(e):
+        node_cls = "list-in-single-slot"      # pycparser put a list where its schema has one child (root cause, whatever the path)
+    return fn, node_cls, heavy
+
+
 def run_config(src, mode, strict, fin, limit=TIME_LIMIT):
-    """one run on a fresh parse.  Returns None (fine) or a failure record {kind, exc, detail}."""
+    """one run on a fresh parse.  Returns {"ok": True, ...} or a failure record {kind, exc, node, detail}."""
     from pymwp import Analysis, LoopAnalysis
     ast = quick_parse(src)
     names = body_funcs(ast)
@@ -99,12 +125,12 @@ def run_config(src, mode, strict, fin, limit=TIME_LIMIT):
     t0 = time.time()
     try:
         res = vlib.with_timeout(lambda: fn(ast, fin=fin, strict=strict), limit)
-    except vlib.CaseTimeout:
-        return {"kind": "timeout", "exc": ["Timeout", None], "detail": f"no result after {limit}s"}
-    except RecursionError as e:
-        return {"kind": "raise", "exc": vlib.exc_sig(e), "detail": "RecursionError"}
+    except vlib.CaseTimeout as e:
+        f, _, heavy = crash_site(e)
+        return {"kind": "timeout", "exc": ["Timeout", heavy or f], "node": None, "detail": f"no result after {limit}s (interrupted in {f})"}
     except Exception as e:
-        return {"kind": "raise", "exc": vlib.exc_sig(e), "detail": f"{type(e).__name__}: {str(e)[:120]}"}
+        f, node_cls, _ = crash_site(e)
+        return {"kind": "raise", "exc": [type(e).__name__, f], "node": node_cls, "detail": f"{type(e).__name__}: {str(e)[:120]}"}
     dt = time.time() - t0
     try:
         d = res.to_dict()
@@ -112,16 +138,18 @@ def run_config(src, mode, strict, fin, limit=TIME_LIMIT):
     except vlib.CaseTimeout:
         raise
     except Exception as e:
-        return {"kind": "json", "exc": ["json:" + type(e).__name__, (vlib.exc_sig(e)[1] or "json.dumps")],
+        f, _, _ = crash_site(e)
+        return {"kind": "json", "exc": ["json:" + type(e).__name__, f or "json.dumps"], "node": None,
                 "detail": f"to_dict/json.dumps: {type(e).__name__}: {str(e)[:120]}"}
     table = res.relations if mode == "func" else res.loops
+    refused = 0
     if not strict:
         missing = [n for n in names if n not in table]
         if missing:
-            return {"kind": "missing", "exc": ["missing-function", mode], "detail": f"functions {missing} absent from the result"}
+            return {"kind": "missing", "exc": ["missing-function", mode], "node": None, "detail": f"functions {missing} absent from the result"}
     else:
-        return {"ok": True, "refused": sum(1 for n in names if n not in table), "funcs": len(names), "dt": dt}
-    return {"ok": True, "refused": 0, "funcs": len(names), "dt": dt}
+        refused = sum(1 for n in names if n not in table)
+    return {"ok": True, "refused": refused, "funcs": len(names), "dt": dt}
 
 
 def run_unit(src):
@@ -238,9 +266,10 @@ FAIL_BODIES = ["{0} = {0} + {1}; {1} = {0} + {0};", "{0} = {0} * {0};", "{0} = {
 
 
 class UnitGen:
-    def __init__(self, rng, maxnest):
+    def __init__(self, rng, maxnest, heavy=False):
         self.r = rng
         self.maxnest = maxnest
+        self.heavy = heavy
         self.k = 0
 
     def sg(self, edge=None, maxdepth=3):
@@ -277,6 +306,30 @@ class UnitGen:
         if k == 4:
             return f"if ({a} > {b}) {{ while ({a} > 0) {{ {body} }} }} else {{ while ({b} > 0) {{ {body} }} }}"
         return f"while ({a} > 0) {{ while ({b} > 0) {{ {body} }} {a} = {b} + {b}; }}"
+
+    def dense_loop(self, nsites):
+        """a loop whose body is a run of binary operations over few variables (many infinity paths: stresses the
+        fixpoint, the delta graph and the choice complement)"""
+        r = self.r
+        vs = V[:r.choice([2, 3, 4])]
+
+        def st(d):
+            k = r.random()
+            a, b, c = r.choice(vs), r.choice(vs), r.choice(vs)
+            if k < 0.7:
+                return f"{a} = {b} {r.choice('+-*')} {c};"
+            if k < 0.8:
+                return f"{a} = {b};"
+            if k < 0.87:
+                return f"{a}++;"
+            if d < 1 and k < 0.94:
+                return f"if ({a} > {b}) {{ {st(d + 1)} }} else {{ {st(d + 1)} }}"
+            if d < 1:
+                return f"while ({a} > 0) {{ {st(d + 1)} {st(d + 1)} }}"
+            return f"{a} = {b} + {c};"
+        body = " ".join(st(0) for _ in range(nsites))
+        hd = r.choice([f"while ({r.choice(vs)} > 0)", "for (i = 0; i < n; i++)", f"while ({r.choice(vs)} < {r.choice(vs)})"])
+        return f"{hd} {{ {body} }}" if not hd.startswith("do") else f"do {{ {body} }} while (x > 0);"
 
     def for_stmt(self):
         g = self.sg(edge=0.9)
@@ -370,6 +423,8 @@ class UnitGen:
         if kind == "deep":
             d = r.randint(max(2, self.maxnest - 3), self.maxnest)
             return self.nest(d)
+        if kind == "dense":
+            return "\n".join(self.dense_loop(r.randint(2, 5 if self.heavy else 3)) for _ in range(r.randint(1, 2)))
         if kind == "fors":
             return "\n".join(self.for_stmt() for _ in range(r.randint(1, 4)))
         if kind == "consts":
@@ -446,7 +501,7 @@ class UnitGen:
 
     def unit(self):
         r = self.r
-        kinds = ["mixed", "mixed", "casts", "failing", "deep", "fors", "consts", "decls", "syntax", "empty", "gp", "gp"]
+        kinds = ["mixed", "mixed", "casts", "failing", "deep", "fors", "consts", "decls", "syntax", "empty", "gp", "gp", "dense"]
         nf = r.choice([1, 1, 1, 2, 2, 3, 4])
         pre = [r.choice(PREAMBLES) for _ in range(r.choice([0, 0, 1, 2, 4]))]
         parts, tags = list(pre), []
@@ -463,7 +518,7 @@ class UnitGen:
 def gen_units(ctx, n, maxnest):
     """n parseable units"""
     out, tries, rejected = [], 0, 0
-    ug = UnitGen(ctx.rng, maxnest)
+    ug = UnitGen(ctx.rng, maxnest, heavy=ctx.thorough)
     while len(out) < n and tries < 6 * n + 50:
         tries += 1
         src, tags = ug.unit()
@@ -509,7 +564,7 @@ def still_fails(src, f):
         r = run_config(src, f["mode"], f["strict"], f["fin"], limit=TIME_LIMIT if f["kind"] == "timeout" else 10)
     except Exception:
         return False
-    return (not r.get("ok")) and r["exc"] == f["exc"]
+    return (not r.get("ok")) and r["exc"] == f["exc"] and r.get("node") == f.get("node")
 
 
 def _parses(t):
@@ -579,14 +634,30 @@ def shrink(src, f):
 
 
 def failing_record(label, src, f, shrunk=None):
-    cons = construct_of(shrunk if shrunk is not None else src)
-    sig = ["C06", f["exc"][0], f["exc"][1], cons]
+    """signature: [C06, exception type | Timeout | json:... | missing-function, innermost pymwp function (for a timeout: the
+    long-running pymwp function that was interrupted), class of the AST node the crashing function was handling (None when the
+    crash is not tied to a node)]; the node classes of the shrunk unit are given in the text only (they depend on the shrinker)."""
+    small = shrunk if shrunk is not None else src
+    cons = construct_of(small)
+    sig = ["C06", f["exc"][0], f["exc"][1], f.get("node")]
     what = (f"{f['kind']}: {'Analysis' if f['mode'] == 'func' else 'LoopAnalysis'}.run(strict={f['strict']}, fin={f['fin']}) "
-            f"{f['detail']} in {f['exc'][1]} [{cons}]")
+            f"{f['detail']} in {f['exc'][1]}" + (f" while handling a {f['node']} node" if f.get("node") else "") + f" [unit: {cons}]")
     return {"what": what, "sig": sig,
-            "input": {"src": shrunk if shrunk is not None else src, "opts": {"mode": f["mode"], "strict": f["strict"], "fin": f["fin"]},
-                      "shrunk_from": src if shrunk is not None and shrunk != src else None, "label": label},
+            "input": {"src": small, "opts": {"mode": f["mode"], "strict": f["strict"], "fin": f["fin"]},
+                      "shrunk_from": src if small != src else None, "label": label},
             "expected": "a JSON-serialisable result naming every function with a body", "observed": f["detail"]}
+
+
+def confirm_timeouts(items, limit):
+    """a 20 s timeout inside the 16-process pool is re-run alone with a longer limit: finished -> only 'slow'"""
+    out = []
+    for label, src, f in items:
+        try:
+            r = run_config(src, f["mode"], f["strict"], f["fin"], limit=limit)
+        except Exception:
+            r = {"ok": True}
+        out.append((label, src, f, r))
+    return out
 
 
 # ---------------------------------------------------------------------------
@@ -597,7 +668,7 @@ def run(ctx):
     vlib.import_pymwp()
     t0 = time.time()
     maxnest = ctx.n(6, 10)
-    corpus = [(c["label"], c["src"]) for c in vlib.corpus("C06")]
+    corpus = [(c["label"], c["src"]) for c in vlib.corpus("C06") if ctx.thorough or c.get("tier") != "thorough"]
     corpus += [("stream:" + l, s) for l, s in streams.CORPUS]
     files = repo_files()
     gen, rejected = gen_units(ctx, ctx.n(700, 9000), maxnest)
@@ -609,6 +680,7 @@ def run(ctx):
     strict_funcs = strict_refused = 0
     hist, tagh, nest_h = {}, {}, {}
     slow = 0.0
+    tmo = []
     for label, src, fails, info in results:
         if fails is None:
             unparsed += 1
@@ -629,23 +701,39 @@ def run(ctx):
                 tagh[t] = tagh.get(t, 0) + 1
         for f in fails:
             if f["kind"] == "timeout":
-                timeouts += 1
-            else:
-                exc += 1
-            key = (f["exc"][0], f["exc"][1], f["mode"])
-            by_sig.setdefault(key, []).append((label, src, f))
-    # one shrunk report per (exception, function, mode) class and per distinct construct found inside it
-    seen_sigs = set()
+                tmo.append((label, src, f))
+                continue
+            exc += 1
+            by_sig.setdefault((f["exc"][0], f["exc"][1], f.get("node")), []).append((label, src, f))
+    # timeouts: one confirmation run per distinct unit, alone, with three times the limit
+    slow_runs, seen_units = 0, set()
+    tmo.sort(key=lambda x: len(x[1]))
+    todo = []
+    for label, src, f in tmo:
+        if src not in seen_units and len(todo) < ctx.n(3, 12):
+            seen_units.add(src)
+            todo.append((label, src, f))
+    for label, src, f, r in confirm_timeouts(todo, 3 * TIME_LIMIT):
+        if r.get("ok"):
+            slow_runs += 1
+            slow = max(slow, r.get("dt", 0.0))
+        elif r["kind"] == "timeout":
+            timeouts += 1
+            f = dict(f, **r)
+            by_sig.setdefault((f["exc"][0], f["exc"][1], None), []).append((label, src, f))
+        else:
+            exc += 1
+            f = dict(f, **r)
+            by_sig.setdefault((f["exc"][0], f["exc"][1], f.get("node")), []).append((label, src, f))
+    # one shrunk report per signature
     for key, lst in sorted(by_sig.items(), key=lambda kv: str(kv[0])):
         lst.sort(key=lambda x: len(x[1]))
-        for label, src, f in lst[:ctx.n(4, 8)]:
-            small = shrink(src, f)
-            rec = failing_record(label, src, f, small)
-            rec["count"] = len(lst)
-            k = json.dumps(rec["sig"])
-            if k not in seen_sigs:
-                seen_sigs.add(k)
-                failing.append(rec)
+        label, src, f = lst[0]
+        small = src if f["kind"] == "timeout" else shrink(src, f)
+        rec = failing_record(label, src, f, small)
+        rec["count"] = len(lst)
+        rec["other_inputs"] = [x[1] for x in lst[1:3]]
+        failing.append(rec)
 
     # correspondence on the typed fragment (model RErr <-> real raise: codes 1 / 2)
     mism, coq_cases = [], []
@@ -672,13 +760,15 @@ def run(ctx):
              "rule": "translation units (corpus, repo example files parseable without cpp, generated: gen_prog functions with inserted edge statements/"
                      "conditions, syntax_common statements, casts around every expression form, runs of failing loops, nesting chains, odd for-headers, "
                      "constant folding, declarations, preambles, odd signatures, several functions) x {Analysis.run, LoopAnalysis.run} x {strict} x {fin}; "
-                     "each on a fresh parse under a 20 s limit; distinct_nontrivial = distinct generated or repo units",
+                     "each on a fresh parse under a 20 s limit (a run over the limit is repeated alone with 60 s before it counts as a hang); "
+                     "distinct_nontrivial = distinct generated or repo units",
              "units": len(units), "corpus_units": len(corpus), "repo_files": len(files), "generated_units": len(gen),
              "generator_rejected_by_pycparser": rejected, "unparsed": unparsed,
              "constructs_histogram": dict(sorted(hist.items(), key=lambda kv: -kv[1])), "unit_kinds": tagh,
              "nesting_histogram": {str(k): v for k, v in sorted(nest_h.items())}, "max_nesting_generated": maxnest,
              "strict_refused_share": round(strict_refused / max(1, strict_funcs), 3), "strict_functions": strict_funcs,
-             "exceptions": exc, "timeouts": timeouts, "slowest_run_s": round(slow, 2), "distinct_failure_signatures": len(failing),
+             "exceptions": exc, "timeouts": timeouts, "runs_over_20s_that_finished_within_60s": slow_runs,
+             "slowest_run_s": round(slow, 2), "distinct_failure_signatures": len(failing),
              "coq_model_cases": len(coq_cases), "samples": samples, "search_wall_s": round(time.time() - t0, 1)}
     if gen and (len(hist) < 25 or max(nest_h) < maxnest - 1):
         mism.append(f"generator degenerate: {len(hist)} construct classes, max nesting {max(nest_h)}")
@@ -693,7 +783,7 @@ def replay(ctx, data):
     confs = [(o["mode"], o.get("strict", False), o.get("fin", False))] if "mode" in o else CONFIGS
     for mode, strict, fin in confs:
         try:
-            r = run_config(src, mode, strict, fin)
+            r = run_config(src, mode, strict, fin, limit=o.get("limit", TIME_LIMIT))
         except Exception as e:
             return {"what": f"unparseable replay input: {e}", "sig": ["C06", "harness", None, None], "input": inp}
         if not r.get("ok"):
